@@ -7,7 +7,7 @@ MANIFEST.json.
 
 PROPS = {}
 NOT_APPLICABLE = {}
-HOOK_COMMITS = ["c94b8c9", "c3c8497", "5a76809", "8c6f5e6", "6f05708", "4b3aea6", "d4d37fd", "93cafe8", "b0120f9", "11f2416", "202614f", "dc8e7fa", "fc7f3ae"]
+HOOK_COMMITS = ["c94b8c9", "c3c8497", "5a76809", "8c6f5e6", "6f05708", "4b3aea6", "d4d37fd", "93cafe8", "b0120f9", "11f2416", "202614f", "dc8e7fa", "fc7f3ae", "027accd"]
 
 
 def prop(pid, **kw):
